@@ -322,10 +322,23 @@ def isil_format(rep, reg):
             hooks[n_.name] = lambda *a: True
     if len(hooks) < 2:
         raise AnalysisError("stdnum/isil.py: no function looks the agency up in numdb.get('isil')")
+    # the lookup appends a sentinel to the agency (`agency.upper() + '$'`): an entry written without it is found as a prefix of
+    # longer agencies only, never as the agency itself
+    sentinel = None
+    for n_ in tree.body:
+        if isinstance(n_, ast.FunctionDef) and n_.name in hooks and n_.name != 'compact':
+            for b_ in ast.walk(n_):
+                if isinstance(b_, ast.BinOp) and isinstance(b_.op, ast.Add) and isinstance(b_.right, ast.Constant) and isinstance(b_.right.value, str) \
+                        and len(b_.right.value) == 1 and not b_.right.value.isalnum():
+                    sentinel = b_.right.value
     n = 0
     for e in reg.entries:
         if e.depth != 0 or e.low != e.high or not e.props:
             continue
+        if sentinel is not None:
+            rep.check(e.low.endswith(sentinel), 'REG.consumer-isil', reg.rel, e.rng, e.text[:100], e.line,
+                      'the agency key %r does not end with the sentinel %r that the lookup appends: isil looks up %r and finds more than one part, so the '
+                      'agency counts as unknown' % (e.low, sentinel, e.low + sentinel), what='key %s ends with %s' % (e.low, sentinel))
         agency = e.low[:-1] if e.low.endswith('$') else e.low
         witness = agency + '-1'
         env = dict(env0)
